@@ -91,7 +91,21 @@ def strat_load(draw, tier):
             p = draw(st.integers(1, 17))
             if (c, p) not in used:
                 pre.append([c[0], c[1], p])
+    second = None
+    if draw(st.integers(0, 2)) == 0:
+        # a later load on the same controller of a binary with the same file
+        # name but rebuilt contents, to cores not used so far
+        free = [(c, p) for c in chips for p in (3, 9, 16)
+                if (c, p) not in used and [c[0], c[1], p] not in pre]
+        picks = draw(st.lists(st.sampled_from(free), min_size=1, max_size=3,
+                              unique=True)) if free else []
+        if picks:
+            second = {"size": 4 * draw(st.integers(1, 2 * buf // 4)),
+                      "fill": draw(st.integers(0, 255)),
+                      "targets": [[c[0], c[1], p] for c, p in picks],
+                      "app_id": draw(st.sampled_from([17, 200]))}
     return {"buffer": buf, "w": w, "map": amap, "miss": miss,
+            "second": second,
             "app_id": draw(st.sampled_from([66, 1, 255, 30])),
             "wait": draw(st.sampled_from([False, False, True, None])),
             "n_tries": n_tries, "use_count": use_count, "pre": pre,
@@ -152,13 +166,50 @@ def check_load(case):
                 error = None
             except SpiNNakerLoadingError as e:
                 error = e
+            second_result = None
+            sec = case.get("second")
+            if error is None and sec and not m.violations:
+                first_fills = len(m.fills)
+                path0 = sorted(amap)[0]
+                img2 = bytes((sec["fill"] + 5 * j + 1) & 0xff
+                             for j in range(sec["size"]))
+                with open(path0, "wb") as f:
+                    f.write(img2)
+                t2 = {}
+                for x, y, p in sec["targets"]:
+                    t2.setdefault((x, y), set()).add(p)
+                m.miss_plan = []
+                with sut("second load_application",
+                         (SpiNNakerLoadingError,)):
+                    mc.load_application(path0, t2, app_id=sec["app_id"],
+                                        wait=True)
+                second_result = (first_fills, img2)
         if m.violations:
             raise Violation("malformed flood fill: %s" % m.violations[0][0],
                             dict(m.violations[0][1]))
         # ---- every fill only selects requested, still missing cores
         loaded_so_far = set()
         per_attempt = {}
-        for f in m.fills:
+        n_first = second_result[0] if second_result else len(m.fills)
+        if second_result:
+            img2 = second_result[1]
+            for x, y, p in case["second"]["targets"]:
+                c = m.chips[(x, y)].cores[p]
+                require(c.image == img2 and
+                        c.app_id == case["second"]["app_id"] and
+                        c.state == 5, "a later load of a rebuilt binary with "
+                        "the same file name did not put the new contents on "
+                        "the requested cores",
+                        {"core": [x, y, p], "state": c.state,
+                         "app_id": c.app_id,
+                         "holds_old_image": c.image == images.get(
+                             sorted(amap)[0])})
+        second_cores = set(tuple(t) for t in
+                           (case["second"]["targets"] if second_result
+                            else []))
+        all_fills = m.fills
+        m_fills = all_fills[:n_first]
+        for f in m_fills:
             sel = set((x, y, p) for (x, y), ps in f["selected"].items()
                       for p in ps)
             img = f["image"]
@@ -174,16 +225,16 @@ def check_load(case):
                         "core that is already loaded", {"core": list(core)})
             loaded_so_far.update(tuple(c) for c in f["loaded"])
         nfills_allowed = (case["n_tries"] + 1) * len(amap)
-        require(len(m.fills) <= nfills_allowed, "more flood fills were sent "
+        require(len(m_fills) <= nfills_allowed, "more flood fills were sent "
                 "than the configured number of attempts allows",
-                {"fills": len(m.fills), "allowed": nfills_allowed})
+                {"fills": len(m_fills), "allowed": nfills_allowed})
         # ---- outcome
         state_now = dict(((x, y, p), (c.state, c.app_id, c.image))
                          for (x, y), chip in m.chips.items()
                          for p, c in enumerate(chip.cores))
         pre = set(tuple(c) for c in case["pre"])
         for core, (st_, a, img) in state_now.items():
-            if core in wanted:
+            if core in wanted or core in second_cores:
                 continue
             if core in pre:
                 require((a, img) == before[core][1:], "a core that was not "
@@ -201,8 +252,9 @@ def check_load(case):
                       for s in m.signals)
         missed_any = any(f["missed"] and any(
             tuple(c) in set((x, y) for x, y, p in wanted)
-            for c in f["missed"]) for f in m.fills)
-        cls = ["fills=%d" % min(len(m.fills), 6)]
+            for c in f["missed"]) for f in m_fills)
+        cls = ["fills=%d" % min(len(m_fills), 6)] + \
+            (["second-load"] if second_result else [])
         if error is None:
             require(not missing, "load_application returned normally "
                     "although a requested core does not hold its binary",
@@ -234,10 +286,10 @@ def check_load(case):
                                 "binary", {"core": [x, y, p]})
             require(not started, "start signal sent although loading "
                     "failed", {})
-            require(len(m.fills) == nfills_allowed or
-                    len(m.fills) >= case["n_tries"] + 1,
+            require(len(m_fills) == nfills_allowed or
+                    len(m_fills) >= case["n_tries"] + 1,
                     "loading gave up before using its attempts",
-                    {"fills": len(m.fills), "n_tries": case["n_tries"]})
+                    {"fills": len(m_fills), "n_tries": case["n_tries"]})
             cls.append("loading-error")
         chips_in_map = set((x, y) for x, y, p in wanted)
         return {"nontrivial": missed_any and len(chips_in_map) >= 2,
